@@ -9,16 +9,20 @@ Seqs(S, n) == UNION {[1..k -> S] : k \in 0..n}
 \* stall: milliseconds the transport takes to accept each CER (back-pressure); the spacing is
 \* measured between the ends of the writes.  redial: the same client / state machine has
 \* completed an earlier dial from another local address.
-Init == s \in {[budget |-> b, interval |-> 40, kind |-> k, at |-> a, extras |-> <<>>, stall |-> 0, redial |-> FALSE, shared |-> FALSE] :
+Init == s \in {[budget |-> b, interval |-> 40, kind |-> k, at |-> a, extras |-> <<>>, stall |-> 0, redial |-> FALSE, shared |-> FALSE, cfg |-> ""] :
                   b \in 0..MaxBudget, k \in Kinds, a \in 1..(MaxBudget + 1)}
-         \cup {[budget |-> b, interval |-> 40, kind |-> k, at |-> b + 1, extras |-> <<>>, stall |-> 25, redial |-> r, shared |-> FALSE] :
+         \cup {[budget |-> b, interval |-> 40, kind |-> k, at |-> b + 1, extras |-> <<>>, stall |-> 25, redial |-> r, shared |-> FALSE, cfg |-> ""] :
                   b \in 1..MaxBudget, k \in {"ok", "silence", "fail"}, r \in BOOLEAN}
          \* shared: another connection of the same client (and state machine) is up, and its peer repeats
          \* its CEA there while this dial is waiting: this dial's outcome depends on its own peer only
-         \cup {[budget |-> b, interval |-> 40, kind |-> k, at |-> a, extras |-> <<>>, stall |-> 0, redial |-> FALSE, shared |-> TRUE] :
+         \cup {[budget |-> b, interval |-> 40, kind |-> k, at |-> a, extras |-> <<>>, stall |-> 0, redial |-> FALSE, shared |-> TRUE, cfg |-> ""] :
                   b \in 0..1, k \in {"ok", "fail", "silence", "unsupapps"}, a \in 1..2}
-         \cup {[budget |-> 0, interval |-> 40, kind |-> "ok", at |-> 1, extras |-> <<>>, stall |-> 0, redial |-> TRUE, shared |-> FALSE]}
-Next == /\ s.kind = "ok" /\ Answers(s) /\ Len(s.extras) < MaxExtras
+         \* cfg: the client was told to advertise an application of that type which its dictionary does not
+         \* support: the dial fails at once, nothing is sent
+         \cup {[budget |-> b, interval |-> 40, kind |-> "ok", at |-> 1, extras |-> <<>>, stall |-> 0, redial |-> FALSE, shared |-> FALSE, cfg |-> c] :
+                  b \in 0..1, c \in {"acct", "auth", "vsa"}}
+         \cup {[budget |-> 0, interval |-> 40, kind |-> "ok", at |-> 1, extras |-> <<>>, stall |-> 0, redial |-> TRUE, shared |-> FALSE, cfg |-> ""]}
+Next == /\ s.kind = "ok" /\ Answers(s) /\ s.cfg = "" /\ Len(s.extras) < MaxExtras
         /\ \E x \in Extras : s' = [s EXCEPT !.extras = Append(@, x)]
 Canon == (s.kind = "silence" => (s.at = 1 \/ s.stall > 0)) /\ s.at <= s.budget + 1
 \* R1: the expectation is well defined: a script either succeeds or names at least one admissible error
